@@ -40,6 +40,7 @@ def tokensForLine (line : Option Nat) : M F (List (Token F)) := fun s =>
 def tokens : M F (List (Token F)) := fun s => tokensForLine s.loc.line s
 
 def peek : M F (Option (Token F)) := do
+  modify fun s => { s with reads := s.reads + 1 }
   let ts ← tokens
   let s ← get
   pure ts[s.loc.idx]?
@@ -106,7 +107,7 @@ def rewindBeforeInput : M F Unit := do
   let ts ← tokens
   let s ← get
   match findInputBefore ts s.loc.idx with
-  | some i => set { s with loc := { s.loc with idx := i } }
+  | some i => set { s with loc := { s.loc with idx := i }, reads := s.reads + (s.loc.idx - i) }
   | none => rpanic "rewind_before_token: token not found"
 
 /-- `set_and_goto_immediate_line` -/
